@@ -15,10 +15,10 @@ namespace PyresampleModel
 def pyFloor (x : Rat) : Int := x.floor
 
 /-- `math.ceil`, `np.ceil(...).astype(int)` -/
-def pyCeil (x : Rat) : Int := x.ceil
+def pyCeil (x : Rat) : Int := -((-x).floor)
 
 /-- `int(x)`, `ndarray.astype(int)` of a finite float: truncation toward zero. -/
-def pyTrunc (x : Rat) : Int := if 0 ≤ x then x.floor else x.ceil
+def pyTrunc (x : Rat) : Int := if 0 ≤ x then x.floor else -((-x).floor)
 
 /-- Python 3 `round(x)` and `np.round` on exact halves: round half to even. -/
 def roundHalfEven (x : Rat) : Int :=
